@@ -476,6 +476,37 @@ def show_path_len(rule):
     return len(rule.path)
 
 
+@clause("C06", "validate-sequence")
+def c06_sequence(w):
+    """One schema object validating several documents one after the other gives, for each, the conjunction of its
+    rules' verdicts on *that* document (what a freshly built schema gives)."""
+    V = ns()
+    st, docs = w["schema"], [dec(d) for d in w["docs"]]
+    S = build_schema(st, V)
+    for d in docs:
+        want = O.SchemaSpec(st, d)
+        vd = S.validate(d)
+        got = (vd.is_valid, vd.num_failures, vd.num_rules_tested)
+        if got != (want["valid"], want["num_failures"], want["num_tested"]):
+            return Fail("stale-verdict", f"shared schema on {d!r} after validating {docs!r} in order", got,
+                        (want["valid"], want["num_failures"], want["num_tested"]))
+    return None
+
+
+@cases("C06", "validate-sequence")
+def c06_sequence_gen(r, tier):
+    n = 60 if tier == "quick" else 800
+    ty = lambda t: G.leaf("ValueDataType", "equal_to", {"$type": t})
+    for t in ("int", "bool", "float"):
+        rules = [{"path": {"parts": [{"$p": "mol"}]}, "cond": ty(t)}, {"path": {"parts": []}, "cond": G.leaf("Value", "truthy")}]
+        yield {"schema": {"rules": rules}, "docs": [enc({"n": 1, "m": 0}), enc({"n": True, "m": False}), enc({"n": 1.0, "m": 0.0})]}
+        yield {"schema": {"rules": rules}, "docs": [enc([1, 0]), enc([True, False]), enc([1.0, 0.0]), enc([1, 0])]}
+    for _ in range(n):
+        d = G.gen_doc(r, 2)
+        docs = [d, copy.deepcopy(d), G.gen_doc(r, 2)]
+        yield {"schema": G.gen_schema(r, d, n=r.randint(1, 3)), "docs": [enc(x) for x in docs]}
+
+
 @cases("C06", "schema-aggregates")
 def c06_gen(r, tier):
     n = 250 if tier == "quick" else 4000
